@@ -5,12 +5,15 @@ Correspondence for C19.
 
 * `coeff`: the `Int` model of the packed storage (`index`, `Csize`, `Ssize`, constructor checks, unchecked and
   range-checked accessors) against the real `SphericalEngine::coeff` object — exact.
-* `shm`: the `RealLike` model of `SphericalEngine::Value<false, norm, L>` (L = 1, 2, 3, both normalisations,
+* `shm`: the `RealLike` models of `SphericalEngine::Value<false, norm, L>`, `Value<true, norm, L>` (value and Cartesian
+  gradient), `SphericalEngine::Circle<gradp, norm, L>` + `CircularEngine::Value` (L = 1, 2, 3, both normalisations,
   truncated secondary sets) executed in binary64 against `SphericalHarmonic`, `SphericalHarmonic1`,
-  `SphericalHarmonic2` — tolerance relative to `Σ|terms|`.
+  `SphericalHarmonic2` and their `Circle(…)(lon)` — tolerance relative to `Σ|terms|` (of the value, resp. of the
+  gradient components).
 * `mag`: epoch selection and time interpolation of `MagneticModel::FieldGeocentric` from the implementation's own
   per-epoch harmonic gradients.
-* `ngu`: closed forms of the normal potential and of `FlatteningToJ2` (oblate) — condition-aware tolerance.
+* `ngu`: closed forms of the normal potential (oblate, prolate, sphere) and of `FlatteningToJ2` (oblate) — condition-aware tolerance.
+* `ngj`: the flattening returned by `J2ToFlattening` is a zero of the model's Newton residual `j2Residual` (oblate branch).
 -/
 namespace GeoVerif.Corr.C19
 open GeoVerif GeoVerif.Proto GeoVerif.Harmonic
@@ -73,37 +76,62 @@ def parseDims : Nat → Bool → List String → Option (List SetArgs × List St
       | [] => none
   | _, _, _ => none
 
-/-- parse `clen slen C… S…` for each set -/
-def parseArrays : List SetArgs → List String → Option (List (Coeff Float × Float))
-  | [], _ => some []
+/-- parse `clen slen C… S…` for each set; returns the sets and what follows them -/
+def parseArrays : List SetArgs → List String → Option (List (Coeff Float × Float) × List String)
+  | [], rest => some ([], rest)
   | s :: more, scl :: ssl :: rest => do
     let cl ← scl.toNat?; let sl ← ssl.toNat?
     let C ← (rest.take cl).mapM pfl
     let S ← ((rest.drop cl).take sl).mapM pfl
     if C.length != cl || S.length != sl then none else
-    let tail ← parseArrays more ((rest.drop cl).drop sl)
-    pure ((⟨s.N, s.nmx, s.mmx, C, S⟩, s.tau) :: tail)
+    let (tail, rest') ← parseArrays more ((rest.drop cl).drop sl)
+    pure ((⟨s.N, s.nmx, s.mmx, C, S⟩, s.tau) :: tail, rest')
   | _, _ => none
 
 def handleShm (args res : List String) : Verdict :=
   match args with
   | snorm :: sL :: _cmode :: _seed :: sa :: sx :: sy :: sz :: rest =>
     match snorm.toNat?, sL.toNat?, pfl sa, pfl sx, pfl sy, pfl sz, res.mapM pfl with
-    | some norm, some L, some a, some x, some y, some z, some [v, _gx, _gy, _gz, _vc, mag, gmag] =>
+    | some norm, some L, some a, some x, some y, some z, some [v, gx, gy, gz, vc, mag, gmag, bound, vcg, cgx, cgy, cgz] =>
       match parseDims L true rest with
       | some (dims, rest') =>
         match parseArrays dims rest' with
-        | some sets =>
-          let full := norm == 0
-          let mv := value full sets x y z a scaleF epsF
-          let N := match dims with | d :: _ => d.nmx | [] => 0
-          let rel : Float := 1e-12 * (if N + 1 > 32 then Float.ofInt (N + 1) / 32 else 1)
-          -- r, cos θ, sin θ are rounded (and the model's hypot differs from libm's in the last bits): |∇V|·r·ε is a legitimate difference
-          let rr := Float.sqrt (x * x + y * y + z * z)
-          let tol := rel * mag + 16 * eps53 * rr * gmag + Float.scaleB 1.0 (-450) * (if a > 0 then 1 + a / rr else 1)
-          if !(mag < 1e290) then .skip "overflow"
-          else if (v.isNaN && mv.isNaN) || fabs (v - mv) ≤ tol then .ok
-          else .bad s!"SphericalEngine::Value: impl={shw v} formula model={shw mv} tolerance {tol} (sum|terms| {mag})"
+        | some (sets, tail) =>
+          match tail.mapM pfl with
+          | some [p, slon, clon] =>
+            let full := norm == 0
+            let (mv, mgx, mgy, mgz) := valueGrad full sets x y z a scaleF epsF
+            let mv0 := value full sets x y z a scaleF epsF
+            let N := match dims with | d :: _ => d.nmx | [] => 0
+            let n2 : Float := Float.ofInt (N + 2)
+            let rel : Float := 1e-12 * (if N + 1 > 32 then Float.ofInt (N + 1) / 32 else 1)
+            -- r, cos θ, sin θ are rounded (and the model's hypot differs from libm's in the last bits): |∇V|·r·ε is a legitimate difference
+            let rr := Float.sqrt (x * x + y * y + z * z)
+            let uf := Float.scaleB 1.0 (-450) * (if a > 0 then 1 + a / rr else 1)
+            let tol := rel * mag + 16 * eps53 * rr * gmag + uf
+            -- the same for the gradient: its own derivative scale is (N + 2)/r times larger; pole offset eps() and underflow floor as documented
+            let tolg := rel * gmag + 16 * eps53 * n2 * gmag + uf * n2 / rr + 1e-22 * n2 * n2 * bound / rr
+            let close (t a b : Float) : Bool := (a.isNaN && b.isNaN) || fabs (a - b) ≤ t
+            if !(mag < 1e290 && gmag < 1e290) then .skip "overflow"
+            else if !(close tol v mv0) then
+              .bad s!"SphericalEngine::Value: impl={shw v} formula model={shw mv0} tolerance {tol} (sum|terms| {mag})"
+            else if !(close tol v mv && close tolg gx mgx && close tolg gy mgy && close tolg gz mgz) then
+              .bad s!"SphericalEngine::Value<gradp=true>: impl=({shw v}; {shw gx}, {shw gy}, {shw gz}) formula model=({shw mv}; {shw mgx}, {shw mgy}, {shw mgz}) tolerances {tol}, {tolg} (sum|terms| {mag}, {gmag})"
+            else
+              match circle full false sets p z a scaleF epsF, circle full true sets p z a scaleF epsF with
+              | some c0, some c1 =>
+                let (cv0, _, _, _) := circValue full c0 clon slon scaleF
+                let (cv1, c1x, c1y, c1z) := circValue full c1 clon slon scaleF
+                if !(close tol vc cv0) then
+                  .bad s!"SphericalEngine::Circle<gradp=false> + CircularEngine::Value: impl={shw vc} formula model={shw cv0} tolerance {tol} (sum|terms| {mag})"
+                else if !(close tol vcg cv1 && close tolg cgx c1x && close tolg cgy c1y && close tolg cgz c1z) then
+                  .bad s!"SphericalEngine::Circle<gradp=true> + CircularEngine::Value: impl=({shw vcg}; {shw cgx}, {shw cgy}, {shw cgz}) formula model=({shw cv1}; {shw c1x}, {shw c1y}, {shw c1z}) tolerances {tol}, {tolg} (sum|terms| {mag}, {gmag})"
+                else .ok
+              | _, _ =>
+                -- order −1: the circle object is empty and evaluates to 0
+                if close tol vc 0 && close tol vcg 0 then .ok
+                else .bad s!"CircularEngine of an empty sum: impl={shw vc}, {shw vcg} expected 0"
+          | _ => .bad "parse circle arguments"
         | none => .bad "parse arrays"
       | none => .bad "parse dims"
     | _, _, _, _, _, _, _ => if res == ["!E"] then .skip "rejected" else .bad "parse"
@@ -140,18 +168,54 @@ def handleMag (args res : List String) : Verdict :=
 def handleNgu (args res : List String) : Verdict :=
   match args.mapM pfl, res.mapM pfl with
   | some [GM, om, a, f, u, _beta, b, E, sb, cb], some [U, j2] =>
-    let mU := normalU GM om a b E u sb cb
-    -- conditioning of q(u) = ½[(1 + 3u²/E²)·atan(E/u) − 3u/E]: the two terms are ≈ 3u/E each
-    let relq (w : Float) : Float := 16 * eps53 * (3 * w / E) / fabs (qfun E w)
-    let rot := om * om * a * a / 2 * fabs (qfun E u / qfun E b) * fabs (sb * sb - 1 / 3)
-    let tolU := 16 * eps53 * (fabs GM / u + om * om * (u * u + E * E)) + rot * (relq u + relq b)
-    let mJ := flatteningToJ2 a GM om f
-    let z := Float.sqrt (f * (2 - f)) / (1 - f)
-    let K := 2 * (a * om) * (a * om) * a / (15 * GM)
-    let corrJ := fabs (K * (1 - f) * (1 - f) * (1 - f) / Qz z)
-    let tolJ := 16 * eps53 * (f * (2 - f)) + corrJ * (16 * eps53 * (3 / z) / fabs (Qz z * z * z * z))
-    if fabs (mU - U) ≤ tolU && fabs (mJ - j2) ≤ tolJ then .ok
-    else .bad s!"NormalGravity: U impl={shw U} closed-form model={shw mU} (tolerance {tolU}); FlatteningToJ2 impl={shw j2} model={shw mJ} (tolerance {tolJ})"
+    if f > 0 then
+      let mU := normalU GM om a b E u sb cb
+      -- conditioning of q(u) = ½[(1 + 3u²/E²)·atan(E/u) − 3u/E]: the two terms are ≈ 3u/E each
+      let relq (w : Float) : Float := 16 * eps53 * (3 * w / E) / fabs (qfun E w)
+      let rot := om * om * a * a / 2 * fabs (qfun E u / qfun E b) * fabs (sb * sb - 1 / 3)
+      let tolU := 16 * eps53 * (fabs GM / u + om * om * (u * u + E * E)) + rot * (relq u + relq b)
+      let mJ := flatteningToJ2 a GM om f
+      let z := Float.sqrt (f * (2 - f)) / (1 - f)
+      let K := 2 * (a * om) * (a * om) * a / (15 * GM)
+      let corrJ := fabs (K * (1 - f) * (1 - f) * (1 - f) / Qz z)
+      let tolJ := 16 * eps53 * (f * (2 - f)) + corrJ * (16 * eps53 * (3 / z) / fabs (Qz z * z * z * z))
+      if fabs (mU - U) ≤ tolU && fabs (mJ - j2) ≤ tolJ then .ok
+      else .bad s!"NormalGravity: U impl={shw U} closed-form model={shw mU} (tolerance {tolU}); FlatteningToJ2 impl={shw j2} model={shw mJ} (tolerance {tolJ})"
+    else if f < 0 then
+      let mU := normalUProlate GM om a b E u sb cb
+      -- conditioning of q(w) = Q(−w²)·w³ = −½[(1 − 3/w²)·atanh w + 3/w], w = E/u: the two terms are ≈ 3/w each
+      let relq (w : Float) : Float := 16 * eps53 * (3 / w) / fabs (QzAlt w * w * w * w)
+      let bu := b / u
+      let rot := om * om * a * a / 2 * fabs (QzAlt (E / u) / QzAlt (E / b) * bu * bu * bu) * fabs (sb * sb - 1 / 3)
+      let tolU := 16 * eps53 * (fabs GM / u * (1 + E / (u - E)) + om * om * (u * u + E * E)) + rot * (relq (E / u) + relq (E / b))
+      if fabs (mU - U) ≤ tolU then .ok
+      else .bad s!"NormalGravity (prolate): U impl={shw U} closed-form model={shw mU} (tolerance {tolU})"
+    else
+      let mU := normalUSphere GM om a u sb cb
+      let tolU := 16 * eps53 * (fabs GM / u + om * om * (u * u + a * a * (a / u) * (a / u) * (a / u)))
+      if fabs (mU - U) ≤ tolU then .ok
+      else .bad s!"NormalGravity (sphere): U impl={shw U} closed-form model={shw mU} (tolerance {tolU})"
+  | _, _ => if res == ["!E"] then .skip "rejected" else .bad "parse"
+
+/-! ### ngj: the value returned by `J2ToFlattening` is a zero of the residual of its Newton iteration (oblate branch) -/
+
+def handleNgj (args res : List String) : Verdict :=
+  match args.mapM pfl, res.mapM pfl with
+  | some [a, GM, om, J2], some [f, _j2] =>
+    if f.isNaN then .skip "no solution (NaN)"
+    else if !(f > 1e-5 && f < 1) then .skip "not on the oblate branch of the model"
+    else
+      let e2 := f * (2 - f)
+      let h := j2Residual a GM om J2 e2
+      -- the closed form of Q(e′) cancels for small e′ (the implementation uses a series there): condition-aware tolerance as for FlatteningToJ2
+      let z := Float.sqrt (e2 / (1 - e2))
+      let K := 2 * (a * om) * (a * om) * a / (15 * GM)
+      let corr := fabs (K * (1 - f) * (1 - f) * (1 - f) / Qz z)
+      let tol := 64 * eps53 * (e2 + 3 * fabs J2) + corr * (64 * eps53 * (1 + (3 / z) / fabs (Qz z * z * z * z)))
+      -- |f − j2Flattening(e²)|: the returned flattening is the one of e²
+      let fb := j2Flattening e2
+      if fabs h ≤ tol && fabs (fb - f) ≤ 8 * eps53 * f then .ok
+      else .bad s!"NormalGravity::J2ToFlattening: returned f={shw f} (e2={shw e2}) has residual h(e2)={shw h} in the model of the Newton iteration (tolerance {tol}); e2/(1+sqrt(1-e2))={shw fb}"
   | _, _ => if res == ["!E"] then .skip "rejected" else .bad "parse"
 
 def handle (op : String) (args res : List String) : Option Verdict :=
@@ -177,7 +241,8 @@ def handle (op : String) (args res : List String) : Option Verdict :=
   | "shm" => some (handleShm args res)
   | "mag" => some (handleMag args res)
   | "ngu" => some (handleNgu args res)
-  | "sh" | "grav" | "ng" | "ngj" | "cofbad" | "magx" => some (.skip "judged by the harness oracles on the implementation")
+  | "ngj" => some (handleNgj args res)
+  | "sh" | "grav" | "ng" | "cofbad" | "magx" => some (.skip "judged by the harness oracles on the implementation")
   | _ => none
 
 end GeoVerif.Corr.C19
